@@ -27,11 +27,12 @@ def drop_sig(ftype):
 
 @st.composite
 def set_filter_case(draw, tier, ftypes=("size", "prefix", "position", "suffix", "overlap"),
-                    p_empty=1, missing=None):
+                    p_empty=1, missing=None, self_join=None):
     ftype = draw(st.sampled_from(list(ftypes)))
     measure = "OVERLAP" if ftype == "overlap" else draw(st.sampled_from(SET_FILTER_MEASURES))
     tokcfg = draw(gen.tokenizer_cfg(return_set=True))
-    L, R = draw(gen.two_tables(tokcfg, tier, p_empty=p_empty, missing=missing))
+    L, R = draw(gen.two_tables(tokcfg, tier, p_empty=p_empty, missing=missing,
+                               self_join=self_join))
     lv = canon.table_column(L, L["attr"])["values"]
     rv = canon.table_column(R, R["attr"])["values"]
     if measure == "OVERLAP":
@@ -48,9 +49,10 @@ def set_filter_case(draw, tier, ftypes=("size", "prefix", "position", "suffix", 
 
 
 @st.composite
-def ed_filter_case(draw, tier, ftypes=("size", "prefix", "position", "suffix"), missing=None):
+def ed_filter_case(draw, tier, ftypes=("size", "prefix", "position", "suffix"), missing=None,
+                   self_join=None):
     ftype = draw(st.sampled_from(list(ftypes)))
-    L, R = draw(gen.ed_tables(tier, missing))
+    L, R = draw(gen.ed_tables(tier, missing, self_join=self_join))
     tokcfg = {"kind": "qgram", "q": draw(st.integers(1, 4)), "padding": draw(st.booleans()),
               "return_set": False}
     case = {"ftype": ftype, "measure": "EDIT_DISTANCE", "tok": tokcfg, "L": L, "R": R,
@@ -101,7 +103,7 @@ def must_pairs(case):
 
 
 def check_filter_case(case, ctx, points=("pair", "tables", "candset")):
-    L, R = canon.build_table(case["L"]), canon.build_table(case["R"])
+    L, R = canon.build_pair(case)
     tok = mk_tok(case["tok"])
     f = calls.make_filter(ctx, fcfg_of(case), tok)
     if f is None:
